@@ -405,6 +405,8 @@ def _eqv(c, label, got, want):
 def _(c):
     """proved: `sv.form = F` either converts (coordinates = conv(old, F)(coordinates before), form = F, one write of all six coordinates, nothing else in _data written)
     or, when the conversion raises, leaves coordinates, form and every other item exactly as they were"""
+    if not c.symbolic:
+        return  # ghost forms / frames / uninterpreted conversions only exist symbolically; the bounded contracts above exercise the real objects
     s = _sv_setup(c)
     try:
         s.sv.form = "spherical"
@@ -431,6 +433,8 @@ def _(c):
     fails) form F0, frame A, coordinates as before, covariance untouched; (success) frame B, form F0, coordinates = back(transform(to_cartesian(x))), an attached
     covariance in frame A follows to B, one in another frame is left alone; (restoring the form fails) the object is consistently cartesian, in the frame whose
     coordinates it holds.  The transformation is always applied to cartesian coordinates."""
+    if not c.symbolic:
+        return  # ghost forms / frames / uninterpreted conversions only exist symbolically; the bounded contracts above exercise the real objects
     s = _sv_setup(c)
     same = bool(c.boolean("same_frame"))
     cov_follows = bool(c.boolean("cov_in_frame_of_state"))
@@ -509,6 +513,8 @@ def _(c):
     its own _data dict, whose maneuver list, covariance and propagator are private copies, in the requested form and frame (coordinates = the conversion of the
     receiver's), and never write to the receiver's memory, _data or attached items; copy(same=x) takes both from x and raises TypeError, receiver untouched, when x
     has no form/frame"""
+    if not c.symbolic:
+        return  # ghost forms / frames / uninterpreted conversions only exist symbolically; the bounded contracts above exercise the real objects
     orbit = bool(c.boolean("is_orbit"))
     s = _sv_setup(c, orbit=orbit, never_fail=True)
     mode = c.choice("mode", ["plain", "form", "frame", "both", "same", "same_bad", "same_form_frame_as_self"])
@@ -545,6 +551,8 @@ def _(c):
 def _(c):
     """proved: sv.as_orbit(p) returns an Orbit with propagator p, orb.as_statevector() a StateVector without one; both over their own memory and _data, with the same
     coordinates, form, frame, date and metadata, private copies of the maneuver list and covariance, and the receiver never written"""
+    if not c.symbolic:
+        return  # ghost forms / frames / uninterpreted conversions only exist symbolically; the bounded contracts above exercise the real objects
     from pyvc import sym
     if bool(c.boolean("from_orbit")):
         s = _sv_setup(c, orbit=True, never_fail=True)
